@@ -221,6 +221,9 @@ def check_batch(ctx, spec, out):
     pc = spec['processes']
     ctx.count('procs_1' if pc == 1 else ('procs_2_4' if pc <= 4 else ('procs_5_8' if pc <= 8 else 'procs_9_16')))
     fault = spec.get('fault')
+    if out.get('hung_known'):
+        ctx.count('fault_batches_hung_in_pool_terminate')
+        return
     if fault is not None and fault.get('exc') == 'DeprecatedAliasCall':
         from vlib.engine import current_mode
         ctx.count('batches_with_a_run_that_calls_a_deprecated_alias')
